@@ -324,3 +324,157 @@ func runUnits(c *core.Ctx, r *core.Reporter, rule string, floor int, text string
 		}
 	}
 }
+
+// ---- the dual: a byte length is not a character position ----
+//
+// A []rune made from a string has one element per character. The byte length of the string (len(s) of a string
+// value) is larger as soon as the text is not ASCII, so it must never bound an index into the []rune: not
+// directly, not through a comparison with the index variable, and not through a struct field that carries
+// character positions (a field whose value indexes a []rune or is compared with such an index, found by use:
+// seqFunVars.start/end ...). (count #\l "héllo") died with "index out of range [5] with length 5".
+
+func isRuneSlice(t types.Type) bool {
+	sl, ok := t.Underlying().(*types.Slice)
+	if !ok {
+		return false
+	}
+	b, ok := sl.Elem().Underlying().(*types.Basic)
+	return ok && b.Kind() == types.Int32
+}
+
+func isStringLen(v ssa.Value, depth int) bool {
+	if depth > 4 {
+		return false
+	}
+	switch x := v.(type) {
+	case *ssa.Call:
+		if bi, ok := x.Call.Value.(*ssa.Builtin); ok && bi.Name() == "len" && len(x.Call.Args) == 1 {
+			b, ok := x.Call.Args[0].Type().Underlying().(*types.Basic)
+			return ok && b.Info()&types.IsString != 0
+		}
+	case *ssa.Convert:
+		return isStringLen(x.X, depth+1)
+	case *ssa.Phi:
+		for _, e := range x.Edges {
+			if isStringLen(e, depth+1) {
+				return true
+			}
+		}
+	}
+	return false
+}
+
+func runRuneUnits(c *core.Ctx, r *core.Reporter, rule string, floor int) {
+	r.Rule(rule, "a byte length is not a character position: the length of a string value (len(s)) never bounds an index into a []rune - not as the index or slice bound itself, not in a comparison with a value that indexes a []rune, and not through a struct field that carries character positions (a field whose value indexes a []rune or is compared with such an index, found by use)", floor)
+	fns := c.ModuleFuncs()
+	// values that index a []rune, per function; fields that carry character positions
+	runeIdx := map[ssa.Value]bool{}
+	runeFld := map[*types.Var]bool{}
+	noteIdx := func(v ssa.Value) {
+		if v == nil {
+			return
+		}
+		runeIdx[v] = true
+		if f := loadedField(v); f != nil {
+			runeFld[f] = true
+		}
+	}
+	for _, fn := range fns {
+		for _, b := range fn.Blocks {
+			for _, in := range b.Instrs {
+				switch x := in.(type) {
+				case *ssa.IndexAddr:
+					if isRuneSlice(x.X.Type()) {
+						noteIdx(x.Index)
+					}
+				case *ssa.Index:
+					if isRuneSlice(x.X.Type()) {
+						noteIdx(x.Index)
+					}
+				case *ssa.Slice:
+					if isRuneSlice(x.X.Type()) {
+						noteIdx(x.Low)
+						noteIdx(x.High)
+					}
+				}
+			}
+		}
+	}
+	// fields compared with a rune index are character positions too
+	for round := 0; round < 2; round++ {
+		for _, fn := range fns {
+			for _, b := range fn.Blocks {
+				for _, in := range b.Instrs {
+					bo, ok := in.(*ssa.BinOp)
+					if !ok {
+						continue
+					}
+					switch bo.Op {
+					case token.LSS, token.LEQ, token.GTR, token.GEQ:
+					default:
+						continue
+					}
+					for _, pr := range [][2]ssa.Value{{bo.X, bo.Y}, {bo.Y, bo.X}} {
+						if runeIdx[pr[0]] || (loadedField(pr[0]) != nil && runeFld[loadedField(pr[0])]) {
+							if f := loadedField(pr[1]); f != nil {
+								runeFld[f] = true
+							}
+						}
+					}
+				}
+			}
+		}
+	}
+	var names []string
+	for f := range runeFld {
+		names = append(names, f.Name())
+	}
+	sort.Strings(names)
+	r.Infof("%s: fields carrying character positions (found by use): %v", rule, names)
+	for _, fn := range fns {
+		if fn.Blocks == nil || takesTestingT(fn) {
+			continue
+		}
+		cnt := map[string]int{}
+		emit := func(kind string, pos token.Pos, bad bool, why string) {
+			cnt[kind]++
+			key := fmt.Sprintf("%s|%s", core.SSAName(fn), kind)
+			if cnt[kind] > 1 {
+				key = fmt.Sprintf("%s#%d", key, cnt[kind])
+			}
+			if bad {
+				r.Violate(rule, key, c.Pos(pos), why)
+			} else {
+				r.Hold(rule, key, c.Pos(pos), "no byte length of a string reaches it")
+			}
+		}
+		for _, b := range fn.Blocks {
+			for _, in := range b.Instrs {
+				switch x := in.(type) {
+				case *ssa.Store:
+					if f := fieldOfAddr(x.Addr); f != nil && runeFld[f] {
+						emit("store "+f.Name(), x.Pos(), isStringLen(x.Val, 0), "the byte length of a string is stored into "+f.Name()+", which carries a character position (it bounds an index into a []rune): non-ASCII text indexes past the end")
+					}
+				case *ssa.IndexAddr:
+					if isRuneSlice(x.X.Type()) {
+						emit("rune index", x.Pos(), isStringLen(x.Index, 0), "the byte length of a string indexes a []rune")
+					}
+				case *ssa.Slice:
+					if isRuneSlice(x.X.Type()) && (x.Low != nil || x.High != nil) {
+						bad := (x.Low != nil && isStringLen(x.Low, 0)) || (x.High != nil && isStringLen(x.High, 0))
+						emit("rune slice", x.Pos(), bad, "the byte length of a string bounds a slice of a []rune")
+					}
+				case *ssa.BinOp:
+					switch x.Op {
+					case token.LSS, token.LEQ, token.GTR, token.GEQ:
+						for _, pr := range [][2]ssa.Value{{x.X, x.Y}, {x.Y, x.X}} {
+							if runeIdx[pr[0]] {
+								emit("rune index comparison", x.Pos(), isStringLen(pr[1], 0), "a value that indexes a []rune is bounded by the byte length of a string")
+							}
+						}
+					}
+				}
+			}
+		}
+	}
+}
